@@ -112,10 +112,23 @@ Definition apply_ov (o: option ov) (t: ty) : option ty :=   (* None: no replacem
   | Some (ORet None) => Some TAny
   | _ => None
   end.
+(* /repo fcaa28c: the lookup keys are those of the serializer: (the Annotated form as written -- not modelled,) the type,
+   then its ORIGIN class; for each key all sources in order.  A parametrised container has no key of its own here, only its
+   origin: List[..] -> list, Dict[..] -> dict (other spellings of the same schema -- Sequence, Deque, Tuple[T, ...],
+   Mapping, OrderedDict, Counter, ChainMap -- have other origins; the correspondence registers only list / dict and then
+   spells these types List / Dict) *)
+Definition okey (t: ty) : option string :=
+  match t with
+  | TList _ => Some "list"
+  | TDict _ | TMap _ _ => Some "dict"
+  | _ => None
+  end.
 Definition table_ov (dial conf: list (string * ov)) (t: ty) : option ov :=
   match tykey t with
   | Some k => first_ser [lookup k dial; lookup k conf]
-  | None => None
+  | None => match okey t with
+            | Some k => first_ser [lookup k dial; lookup k conf]
+            | None => None end
   end.
 (* every position below a field (not inside another dataclass: the owner changes there) *)
 Fixpoint resolve_ty (dial conf: list (string * ov)) (t: ty) {struct t} : ty :=
